@@ -100,7 +100,54 @@ def emit(repo, spec, H):
     out.append("Definition reserved_prefixes : list (list Z * Z) := [%s]." % "; ".join(
         "(%s, %s)" % (_bytes(p), n) for p, n in pref))
 
-    for f, fn, anchor, name, params, subst in spec.get("conds", []):
+    # ---- strip-mining copy loop of copy_sds (objects of H4TOOLS_MALLOCSIZE bytes or more) -------------------------
+    f = "mfhdf/hrepack/hrepack_sds.c"
+    rawtxt = H.raw(repo, f)
+    body = H.func_body(rawtxt, "copy_sds")
+    envs = {}
+    envs.update(H.all_enums(H.src(repo, f)))
+    envs.update(H.defines(repo, f))
+
+    def tr(cexpr, params, subst):
+        e = " ".join(cexpr.split())
+        for k in sorted(subst, key=len, reverse=True):
+            e = e.replace(k, " %s " % subst[k])
+        return H.P(e, params, envs).ternary_all()
+
+    m = re.findall(r"sm_size\[i - 1\]\s*=\s*([^;]+);", body)
+    if len(m) != 1:
+        raise ValueError("copy_sds: strip size assignment not found exactly once")
+    out.append("(* %s: copy_sds: sm_size[i - 1] = %s *)" % (f, " ".join(m[0].split())))
+    out.append("Definition strip_size (dim buf nbytes : Z) : Z := %s." % tr(
+        m[0], ["dim", "buf", "nbytes"], {"dimsizes[i - 1]": "dim", "H4TOOLS_BUFSIZE": "buf", "sm_nbytes": "nbytes"}))
+    m = re.findall(r"hs_size\[i\]\s*=\s*([^;]+);", body)
+    if len(m) != 1:
+        raise ValueError("copy_sds: hyperslab size assignment not found exactly once")
+    out.append("(* %s: copy_sds: hs_size[i] = %s *)" % (f, " ".join(m[0].split())))
+    out.append("Definition strip_hs_size (dim off sm : Z) : Z := %s." % tr(
+        m[0], ["dim", "off", "sm"], {"dimsizes[i]": "dim", "hs_offset[i]": "off", "sm_size[i]": "sm"}))
+    if not re.search(r"for\s*\(\s*i = rank\s*,\s*carry = 1\s*;\s*i > 0 && carry\s*;\s*--i\s*\)", body):
+        raise ValueError("copy_sds: next-offset loop header has an unexpected shape")
+    sub = {"hs_offset[i - 1]": "off", "dimsizes[i - 1]": "dim", "hs_size[i - 1]": "hs"}
+    m1 = re.search(r"hs_offset\[i - 1\] \+= hs_size\[i - 1\];\s*if\s*\(([^;{}]+)\)\s*hs_offset\[i - 1\] = 0;\s*else\s*carry = ([^;]+);", body)
+    m2 = re.search(r"hs_offset\[i - 1\] \+= hs_size\[i - 1\];\s*carry = ([^;]+);\s*if\s*\(([^;{}]+)\)\s*hs_offset\[i - 1\] = 0;", body)
+    if m1:
+        wrap, carry = tr(m1.group(1), ["off", "dim", "hs"], sub), None
+        celse = tr(m1.group(2), ["off", "dim", "hs"], sub)
+        carry = "(if Z.eqb %s 0 then %s else 1)" % (wrap, celse)
+        shape = "offset += size; if (wrap) offset = 0; else carry = %s" % m1.group(2).strip()
+    elif m2:
+        wrap = tr(m2.group(2), ["off", "dim", "hs"], sub)
+        carry = tr(m2.group(1), ["off", "dim", "hs"], sub)
+        shape = "offset += size; carry = %s; if (wrap) offset = 0" % m2.group(1).strip()
+    else:
+        raise ValueError("copy_sds: next-offset loop body has an unexpected shape")
+    out.append("(* %s: copy_sds: next hyperslab offset, one dimension: %s   (off = the offset after the addition) *)" % (f, shape))
+    out.append("Definition strip_wrap (off dim hs : Z) : Z := %s." % wrap)
+    out.append("Definition strip_carry (off dim hs : Z) : Z := %s." % carry)
+
+    for ent in spec.get("conds", []):
+        f, fn, anchor, name, params, subst = ent[:6]
         txt = H.src(repo, f)
         body = H.func_body(txt, fn)
         ms = list(re.finditer(anchor, body))
